@@ -559,6 +559,19 @@ pub enum ConnChoice {
     Any,
     MatrixOnly,
     BigramOnly,
+    /// like Any, plus matrices with 21-48 ids per side (sorting/ordering code paths that only
+    /// large id sets reach)
+    AnyOrWide,
+}
+
+pub fn wide_matrix_spec(regime: CostRegime) -> BoxedStrategy<MatrixSpec> {
+    (21u16..=48, 21u16..=48, vec((any::<u16>(), any::<u16>(), any::<i16>()), 0..=80))
+        .prop_map(move |(nr, nl, raw)| MatrixSpec {
+            num_right: nr,
+            num_left: nl,
+            cells: raw.iter().map(|&(r, l, c)| (r % nr, l % nl, cost_from(c, regime))).collect(),
+        })
+        .boxed()
 }
 
 pub fn conn_spec(regime: CostRegime, choice: ConnChoice) -> BoxedStrategy<ConnSpec> {
@@ -575,6 +588,7 @@ pub fn conn_spec(regime: CostRegime, choice: ConnChoice) -> BoxedStrategy<ConnSp
         ConnChoice::Any => prop_oneof![2 => m, 3 => b].boxed(),
         ConnChoice::MatrixOnly => m,
         ConnChoice::BigramOnly => b,
+        ConnChoice::AnyOrWide => prop_oneof![2 => m, 2 => b, 2 => wide_matrix_spec(regime).prop_map(ConnSpec::Matrix)].boxed(),
     }
 }
 
